@@ -92,6 +92,8 @@ type concCase struct {
 	// NoYieldDigest: do not observe the shared objects at yield points (only at the end), so that the observer does
 	// not initialise lazily built state ahead of the tasks.
 	NoYieldDigest bool `json:"no_yield_digest,omitempty"`
+	// Burst marks the cold-start task set of a part B process (regenerated by concBurst, not concGen).
+	Burst bool `json:"burst,omitempty"`
 	// Pristine: compare with solo baselines taken in fresh processes as well.
 	Pristine bool `json:"pristine,omitempty"`
 	// Prelude: the task sets this worker process ran just before (only kept for the fresh-process clause, whose point
@@ -470,6 +472,49 @@ func concTask(r *prng.Rand, w drive.CWorld, cat *model.Catalog, typePool []int) 
 	}
 }
 
+// concBurst is the task set a part B process runs first, while everything ion-go initialises lazily is still cold: two
+// of every kind of reader, decoder and marshal task, over documents rich in timestamps with fractional seconds and
+// offsets, decimals, big integers and symbols, so that pairs of tasks meet on whatever each code path touches first.
+func concBurst(seed uint64, i int) concCase {
+	r := prng.New(prng.Mix(seed, 1819, uint64(i)))
+	w := concWorld(r.Fork())
+	cs := concCase{World: w}
+	rich := func(rr *prng.Rand) []*model.Value {
+		o := gen.DefaultOpts()
+		o.NoSID = true
+		o.MaxDepth = 3
+		vals := gen.Sanitize(gen.Doc(rr, o, 4))
+		for k := 0; k < 4; k++ {
+			ts := gen.TS(rr, o)
+			ts.Prec = model.Fraction
+			ts.Year = rr.Range(1900, 2100)
+			ts.FracDigits = rr.Range(1, 8)
+			ts.Frac = ""
+			for d := 0; d < ts.FracDigits; d++ {
+				ts.Frac += string(rune('0' + rr.Intn(10)))
+			}
+			ts.Unknown = false
+			ts.Offset = []int{-480, -1, 0, 1, 90, 330, 600}[rr.Intn(7)]
+			vals = append(vals, model.NewTS(*ts), &model.Value{Kind: model.Decimal, Dec: gen.Dec(rr)}, model.NewBig(gen.BigInt(rr)))
+		}
+		return vals
+	}
+	for k := 0; k < 2; k++ {
+		vals := rich(r.Fork())
+		bin := render.Binary(render.Values(vals), render.BinOpts{Auto: true}).Bytes
+		txt := render.Text(render.Values(vals), render.TextOpts{}).Bytes
+		cs.Tasks = append(cs.Tasks,
+			drive.CTask{Kind: "read", Data: bin, Plan: planWhole()},
+			drive.CTask{Kind: "read", Data: txt, Plan: planWhole()},
+			drive.CTask{Kind: "decode", Data: bin, Plan: planWhole()},
+			drive.CTask{Kind: "marshal", Writer: []string{"text", "binary"}[k], Type: 1, ValSeed: r.Uint64(), Count: 2},
+			drive.CTask{Kind: "write", Writer: []string{"pretty", "binary"}[k], Ops: drive.DocOps(vals)})
+	}
+	return cs
+}
+
+var concFirstFreeIndex = true
+
 func concGen(seed uint64, i int) concCase {
 	r := prng.New(prng.Mix(seed, 18, uint64(i)))
 	w := concWorld(r.Fork())
@@ -714,6 +759,12 @@ func (s concurrent) runFree(c *Ctx, cs concCase, soloFn func() []string) {
 
 func (s concurrent) Run(c *Ctx, i int) {
 	cs := concGen(c.Seed, i)
+	if FreeMode() && concFirstFreeIndex {
+		concFirstFreeIndex = false
+		cs = concBurst(c.Seed, i)
+		cs.Burst = true
+		c.Count("free.cold-start-bursts", 1)
+	}
 	defer rememberConc(cs)
 	for _, t := range cs.Tasks {
 		c.Count("task."+taskClass(t), 1)
@@ -734,7 +785,11 @@ func (s concurrent) Run(c *Ctx, i int) {
 		return solo
 	}
 	if FreeMode() {
-		fmt.Fprintf(os.Stderr, "##INDEX %d\n", i)
+		if cs.Burst {
+			fmt.Fprintf(os.Stderr, "##INDEX %d burst\n", i)
+		} else {
+			fmt.Fprintf(os.Stderr, "##INDEX %d\n", i)
+		}
 		cs.Free = true
 		cs.Reps = 3
 		c.Ahead(cs)
@@ -870,8 +925,12 @@ func (s concurrent) checkPristine(c *Ctx, cs concCase, got [][]string, where str
 }
 
 // ConcCaseJSON regenerates the explicit part B case of a run index (generation does not involve ion-go).
-func ConcCaseJSON(seed uint64, i int) []byte {
+func ConcCaseJSON(seed uint64, i int, burst bool) []byte {
 	cs := concGen(seed, i)
+	if burst {
+		cs = concBurst(seed, i)
+		cs.Burst = true
+	}
 	cs.Free = true
 	cs.Reps = 20
 	b, _ := json.Marshal(cs)
